@@ -1022,6 +1022,87 @@ Proof.
   intros Ig. destruct (B Ig) as [x [Hx E]]. rewrite E. exact (selection _ _ _ _ Hx).
 Qed.
 
+(* ------------------------------------------------------------------ the emitted `match self` is exhaustive *)
+
+Lemma arms_full : forall vs i arms,
+  render_enum_arms i vs = Ok arms ->
+  length arms <= length vs /\ (length arms = length vs -> map fst arms = seq i (length vs)).
+Proof.
+  induction vs as [|v vs IH]; intros i arms H.
+  - cbn in H. inversion H; subst. cbn. split; [lia|reflexivity].
+  - cbn [render_enum_arms] in H. cbn [length].
+    assert (Skip : forall a, render_enum_arms (S i) vs = Ok a ->
+                   length a <= S (length vs) /\ (length a = S (length vs) -> map fst a = seq i (S (length vs)))).
+    { intros a Ha. destruct (IH _ _ Ha) as [L _]. split; [lia|intros E; lia]. }
+    destruct (v_ignore v); [exact (Skip _ H)|].
+    destruct (expand Variant (v_shape v) (v_fields v)) as [x| |]; cbn [res_bind] in H; try discriminate.
+    destruct (render_enum_arms (S i) vs) as [arms'| |] eqn:R; cbn [res_bind] in H; try discriminate.
+    inversion H; subst. clear H. destruct (IH _ _ R) as [L F].
+    destruct (x_code x); [exact (Skip _ eq_refl)| |];
+      (cbn [length map fst seq]; split; [lia|]; intros E; f_equal; apply F; lia).
+Qed.
+
+Lemma covers_in : forall arms k, covers arms k = true <-> In k (map fst arms).
+Proof.
+  intros arms k. unfold covers. rewrite existsb_exists. split.
+  - intros [a [Ha E]]. apply Nat.eqb_eq in E. subst. apply in_map. exact Ha.
+  - intros H. apply in_map_iff in H. destruct H as [a [E Ha]]. exists a. split; [exact Ha|].
+    apply Nat.eqb_eq. exact E.
+Qed.
+
+Lemma enum_exhaustive : forall vs f,
+  render_enum_source vs = Ok f -> match_exhaustive f (length vs) = true.
+Proof.
+  intros vs f H. unfold render_enum_source, render_enum in H.
+  destruct (render_enum_arms 0 vs) as [arms| |] eqn:R; cbn [res_bind] in H; try discriminate.
+  destruct (arms_full _ _ _ R) as [L F].
+  destruct arms as [|a arms]; inversion H; subst; [reflexivity|]. clear H.
+  cbn [match_exhaustive]. destruct (Nat.ltb_spec (length (a :: arms)) (length vs)) as [Lt|Ge];
+    [reflexivity|].
+  cbn [orb]. apply forallb_forall. intros k Hk. apply covers_in. rewrite F by lia. exact Hk.
+Qed.
+
+Lemma enum_source_documented : forall vs f k v,
+  render_enum_source vs = Ok f -> nth_error vs k = Some v ->
+  (v_ignore v = true -> enum_fn_returns f k = None) /\
+  (v_ignore v = false ->
+   Sel (enum_fn_returns f k) = documented_source (v_shape v) (v_fields v)).
+Proof.
+  intros vs f k v H N. unfold render_enum_source in H.
+  destruct (render_enum vs) as [arms| |] eqn:R; cbn [res_bind] in H; try discriminate.
+  pose proof (enum_variant_documented vs arms k v R N) as D.
+  destruct arms as [|a arms]; inversion H; subst; exact D.
+Qed.
+
+(* a variant without arm really needs the wildcard: it is there whenever some variant (ignored or
+   source-less) has no arm *)
+Lemma enum_wildcard_iff : forall vs arms w,
+  render_enum_source vs = Ok (MatchSelf arms w) ->
+  (w = true <-> exists k, k < length vs /\ covers arms k = false).
+Proof.
+  intros vs arms w H. unfold render_enum_source, render_enum in H.
+  destruct (render_enum_arms 0 vs) as [arms0| |] eqn:R; cbn [res_bind] in H; try discriminate.
+  destruct (arms_full _ _ _ R) as [L F].
+  destruct arms0 as [|a arms0]; inversion H; subst. clear H.
+  destruct (Nat.ltb_spec (length (a :: arms0)) (length vs)) as [Lt|Ge]; split; intros W;
+    try reflexivity; try discriminate.
+  - (* fewer arms than variants: some position is not covered *)
+    destruct (forallb (covers (a :: arms0)) (seq 0 (length vs))) eqn:All.
+    + exfalso. assert (I : incl (seq 0 (length vs)) (map fst (a :: arms0))).
+      { intros k Hk. apply covers_in. exact (proj1 (forallb_forall _ _) All k Hk). }
+      pose proof (NoDup_incl_length (seq_NoDup (length vs) 0) I) as Len.
+      rewrite seq_length, map_length in Len. lia.
+    + assert (E : exists k, In k (seq 0 (length vs)) /\ covers (a :: arms0) k = false).
+      { clear - All. induction (seq 0 (length vs)) as [|k l IH]; [discriminate|].
+        cbn in All. destruct (covers (a :: arms0) k) eqn:C.
+        - destruct (IH All) as [k' [I C']]. exists k'. split; [right; exact I|exact C'].
+        - exists k. split; [left; reflexivity|exact C]. }
+      destruct E as [k [I C]]. exists k. apply in_seq in I. split; [lia|exact C].
+  - destruct W as [k [Lk C]]. exfalso.
+    assert (In k (map fst (a :: arms0))) by (rewrite F by lia; apply in_seq; lia).
+    apply covers_in in H. congruence.
+Qed.
+
 (* ------------------------------------------------------------------ witnesses
    `old_*` : historical regression lemmas about the code before commit 6329c3f (`expand_old`);
    `regression_witnesses` : the same layouts through the current model. *)
